@@ -239,6 +239,15 @@ class Builtins:
     def getitem(self, obj, key, st, k):
         cx = self.cx
         obj = cx.resolve_ref(obj, st)
+        if isinstance(obj, VFunc) and obj.kind == "strsplit":
+            i = z3.simplify(key.t).as_long() if isinstance(key, VInt) and z3.is_int_value(z3.simplify(key.t)) else None
+            if i not in (0, -1):
+                raise Unsupported("item %r of a split string" % (key,))
+            t, rest = cx.fresh("segment", StrS), cx.fresh("rest", StrS)
+            # the last (first) segment: free of the separator, and the string is it alone or <rest><sep><segment> (<segment><sep><rest>)
+            whole = obj.s == t
+            split = obj.s == (z3.Concat(rest, obj.sep, t) if i == -1 else z3.Concat(t, obj.sep, rest))
+            return k(VStr(t), st.assume(z3.Not(z3.Contains(t, obj.sep)), z3.Or(z3.And(whole, z3.Not(z3.Contains(obj.s, obj.sep))), split)))
         if isinstance(obj, VTuple):
             if isinstance(key, VInt) and z3.is_int_value(z3.simplify(key.t)):
                 i = z3.simplify(key.t).as_long()
@@ -1032,6 +1041,12 @@ class Builtins:
     def m_str_startswith(self, s_, args, kwargs, st, k):
         a, b = self._str_terms(s_, args)
         return k(VBool(z3.PrefixOf(b, a)), st)
+
+    def m_str_split(self, s_, args, kwargs, st, k):
+        # s.split(sep) with a non-empty separator: only the first / last segment can be taken from the result
+        if len(args) != 1 or not (isinstance(args[0], VStr) and args[0].const) or s_.t is None:
+            raise Unsupported("str.split in this form")
+        return k(VFunc("strsplit", s=s_.t, sep=args[0].t), st)
 
     def m_str_endswith(self, s_, args, kwargs, st, k):
         a, b = self._str_terms(s_, args)
